@@ -12,6 +12,14 @@ import (
 )
 
 func init() {
+	replayers["C14/nested-print"] = func(c *Ctx, raw json.RawMessage) string {
+		var cs struct {
+			How int
+			D   Directive
+		}
+		json.Unmarshal(raw, &cs)
+		return c14NestedPrint(cs.D, cs.How)
+	}
 	checks["C14"] = checkC14
 	rules["C14"] = "the complete product 32 flag subsets x 8 widths x 6 precisions x 58 verbs, under fmt's State and under redact's printer (Formatter and SafeFormatter entry), round-tripped through MakeFormat; x 14 operands of every basic kind for Safe/Unsafe/forwarder fidelity under fmt; distinct = distinct reproduced formats / outputs"
 	replayers["C14/roundtrip"] = func(c *Ctx, raw json.RawMessage) string {
@@ -303,6 +311,54 @@ func c14AfterElement(ci int, d Directive) string {
 	return ""
 }
 
+// c14NestedPrint: a SafeFormat method reached under the directive d hands a recorder to the SafePrinter it was
+// given - with Print (one operand, several operands) and with Printf under an inner directive. What the recorder
+// sees is the bare %v for Print and the INNER directive for Printf; the outer directive does not leak in.
+func c14NestedPrint(d Directive, how int) string {
+	if d.Verb == 'T' || d.Verb == 'p' || d.Verb == 'w' {
+		return ""
+	}
+	f, stars := d.Format()
+	var got fstate
+	inners := []string{"", "", "", "%v", "%+6.2d", "%#x"}
+	for _, name := range []string{"Formatter", "SafeFormatter"} {
+		var rec interface{} = recFormatter{&got}
+		if name == "SafeFormatter" {
+			rec = recSafeFormatter{&got}
+		}
+		got = fstate{}
+		outer := scriptedFn(func(p redact.SafePrinter) {
+			switch how {
+			case 0:
+				p.Print(rec)
+			case 1:
+				p.Print("a", rec)
+			case 2:
+				p.Print(rec, 1, "b")
+			default:
+				p.Printf(inners[how], rec)
+			}
+		})
+		if pv, pan := recoverTo(func() { redact.Sprintf(f, append(append([]interface{}{}, stars...), outer)...) }); pan {
+			return fmt.Sprintf("panic: %v", pv)
+		}
+		if !got.Called {
+			continue // the outer verb does not dispatch to SafeFormat
+		}
+		var want fstate
+		ref := "%v"
+		if how >= 3 {
+			ref = inners[how]
+		}
+		wrec := recFormatter{&want}
+		fmt.Sprintf(ref, wrec)
+		if got.key() != want.key() {
+			return fmt.Sprintf("SafeFormat reached under %s calls %s with a %s: it sees state %s (MakeFormat=%q), want the state of %q alone: %s", d, []string{"Print(x)", "Print(a, x)", "Print(x, 1, b)", "Printf(%v, x)", "Printf(%+6.2d, x)", "Printf(%#x, x)"}[how], name, got.key(), got.Fmt, ref, want.key())
+		}
+	}
+	return ""
+}
+
 type fmtStringer struct{ out *string }
 
 func (r fmtStringer) Format(s fmt.State, verb rune) { *r.out = fmt.FormatString(s, verb) }
@@ -434,6 +490,16 @@ func checkC14(c *Ctx) {
 			w.Eval()
 			if dt := c14AfterElement(ci, d); dt != "" {
 				w.Fail("after-element", map[string]interface{}{"Container": ci, "D": d}, dt)
+			}
+		}
+		w.Seen(uint64(i))
+	})
+	c.Section("C14/nested-print", map[string]interface{}{"directives": sp.Size(), "calls": "Print(x), Print(a, x), Print(x, 1, b), Printf(%v|%+6.2d|%#x, x)", "recorders": "Formatter, SafeFormatter"}, sp.Size(), func(i int, w *Worker) {
+		d := sp.Get(i)
+		for how := 0; how < 6; how++ {
+			w.Eval()
+			if dt := c14NestedPrint(d, how); dt != "" {
+				w.Fail("nested-print", map[string]interface{}{"How": how, "D": d}, dt)
 			}
 		}
 		w.Seen(uint64(i))
